@@ -7,6 +7,7 @@ type plan struct {
 	ThoroughRuns int
 	ThoroughSecs int
 	Level        string
+	Restart      bool
 }
 
 var confirmFaults = []string{"confirm_late", "confirm_dup", "confirm_lost"}
@@ -45,6 +46,12 @@ var plans = map[string]plan{
 	"C15": {Variants: append(reloadVariants("quota"), reloadVariants("limits")...), QuickRuns: 400, QuickSecs: 70, ThoroughRuns: 40000, ThoroughSecs: 1500},
 	"C16": {Variants: append(append(reloadVariants("quota"), reloadVariants("limits")...), reloadVariants("base")...), QuickRuns: 400, QuickSecs: 70, ThoroughRuns: 40000, ThoroughSecs: 1500},
 	"C06": {Variants: append(stdVariants("gang"), variant{Name: "gang-clock", Profile: "gang", Policy: "rtc", Steps: 90, Faults: with(confirmFaults, "clock_jump", "node_loss"), FaultRate: 0.05, Weight: 4}), QuickRuns: 400, QuickSecs: 70, ThoroughRuns: 40000, ThoroughSecs: 1500},
+	"C12": {Variants: []variant{
+		{Name: "restart-base", Profile: "base", Policy: "rtc", Steps: 60, Faults: confirmFaults, FaultRate: 0.03, Weight: 3, Freeze: true},
+		{Name: "restart-gang", Profile: "gang", Policy: "rtc", Steps: 60, Faults: with(confirmFaults, "node_loss"), FaultRate: 0.03, Weight: 3, Freeze: true},
+		{Name: "restart-limits", Profile: "limits", Policy: "rtc", Steps: 60, Faults: confirmFaults, FaultRate: 0.03, Weight: 2, Freeze: true},
+		{Name: "restart-quota", Profile: "quota", Policy: "rtc", Steps: 60, Faults: confirmFaults, FaultRate: 0.03, Weight: 2, Freeze: true},
+	}, QuickRuns: 40, QuickSecs: 80, ThoroughRuns: 3000, ThoroughSecs: 1800, Level: "fault_enumeration", Restart: true},
 	"C13": {Variants: []variant{
 		{Name: "malformed-base", Profile: "base", Policy: "rtc", Steps: 90, Faults: []string{"malformed"}, FaultRate: 0.03, Weight: 3},
 		{Name: "malformed-gang", Profile: "gang", Policy: "rtc", Steps: 90, Faults: with(confirmFaults, "malformed", "node_loss", "app_remove_live"), FaultRate: 0.03, Weight: 3},
